@@ -1,6 +1,6 @@
 """radix component: builds model driver + harness, generates cases, runs legs C and O into the given Check.
 Used by checks/c09.py (functional kinds) and checks/c16_radix.py / the coordinator's c16.py (lifetime kinds)."""
-import os
+import os, sys
 import vlib
 from comp.radix import gen
 
@@ -13,8 +13,9 @@ RULE = ("seeded op scripts (find / find_or_insert / insert / erase+reclaim / ite
 TRUSTED = ["extraction: ExtrOcamlBasic only; OCaml 4.13.1; comp/radix/driver.ml",
            "correspondence harness comp/radix/harness.cpp (g++ -fsanitize=address,undefined, -fno-access-control)",
            "oracle: std::map<uint64_t, value*>, UBSan/ASan, lifetime/allocation registries in lib/vharness.hpp",
-           "modelled, not verified: value-initialisation of fresh nodes (all fields zero), memory orders are carried by the "
-           "micro-steps but have no sequential meaning (C10)"]
+           "translator/gen_radix.py (clang JSON AST -> Gen/RadixOrders.v); translator/gen_cxxleaf.py + CxxLeaf/Tie_radix.v for pfx_of/idx_of",
+           "modelled, not verified: value-initialisation of fresh nodes (all fields zero); memory orders are carried by the "
+           "micro-steps and tied to the source by Gen/RadixOrders.v but have no sequential meaning (C10)"]
 ASSUMPTIONS = ["single writer, no concurrent readers (C10 covers readers)",
                "insert only of absent keys, erase only of present keys (the code asserts both; scripts violating it must stop in FRG_ASSERT)",
                "erase protocol: the caller destroys the erased value (pointer kept from find) before the key is inserted again"]
@@ -24,7 +25,19 @@ def nontrivial(cid, lines, ri):
         return "|".join(lines)
     return None
 
+def regen(c):
+    """source-derived facts: memory orders/positions of the atomic accesses (translator/gen_radix.py -> Gen/RadixOrders.v)"""
+    rc, o, e = vlib.sh([sys.executable, os.path.join(vlib.ROOT, "translator", "gen_radix.py")], timeout=600)
+    ok, detail = rc == 0, (o + e)[-400:]
+    if ok:
+        ok, log = vlib.coq_make(["Gen/RadixOrders.vo"])
+        if not ok:
+            detail = log[-600:]
+    c.gen_obligation("Gen/RadixOrders.v (memory orders and positions of the atomic accesses of find / find_or_insert / erase "
+                     "= those of the model's micro-step programs)", ok, "" if ok else detail)
+
 def run(c):
+    regen(c)
     okm, mlog = vlib.coq_make(["Radix/RadixExtract.vo"])
     okd, drv, dlog = vlib.ocaml_build("radix_m", ["radix_model"], os.path.join(vlib.ROOT, "comp/radix/driver.ml"))
     okh, har, hlog = vlib.cxx_build("radix_h", os.path.join(vlib.ROOT, "comp/radix/harness.cpp"))
